@@ -3,15 +3,14 @@
 Proved (lean/Nitime/Props/C18.lean): the Fourier-domain filter is an exact projection onto the kept
 bins (in-band components and DC unchanged, others zero), idempotent, linear, mean-preserving;
 DC restoration restores the mean; the filtfilt wrapper is linear when the external filter is;
-band fractions are fractions of the true Nyquist; the boxcar high-pass stage keeps the mean (the
-low-pass stage does not: counterexample); the output axis equals the input axis whenever the
+band fractions are fractions of the true Nyquist; the boxcar filter keeps the mean (all band
+types); the output axis equals the input axis whenever the
 generated descriptor forwards rate, t0 and unit.
 PARTIAL: FIR / IIR frequency responses (`firwin`, `iirdesign`, `filtfilt` are external) are
 probed numerically only (sinusoids well inside / outside the band).
 
 Correspondence: every method x low/high/band-pass x both length parities x 1..4 channels x
-units/t0 against the model: `fourier` (both grid variants are returned; the real code must equal
-one of them), `restoredc` through the public `filtfilt(b, a)` wrapper, `firplan` (arguments the
+units/t0 against the model: `fourier`, `restoredc` through the public `filtfilt(b, a)` wrapper, `firplan` (arguments the
 real `fir` hands to `scipy.signal.firwin`, observed by wrapping it from outside), `boxcar`
 (Float) and `boxcarq` (Rat), `axis` (forwarding of rate / t0 / unit read off the generated
 descriptors vs the real output objects).
@@ -123,15 +122,6 @@ def tok_ub(ub):
     return 'none' if ub is None else f2x(ub)
 
 
-def cmp_either(impl, model):
-    """the real code must equal the intended variant or today's variant of the model"""
-    a, m = impl.split(), model.split()
-    if a[0] != 'ok' or m[0] != 'ok' or len(m) != 3:
-        return impl == model
-    x = parse_flist(a[1])
-    return close_vec(x, parse_flist(m[1]), rtol=1e-9) or close_vec(x, parse_flist(m[2]), rtol=1e-9)
-
-
 def cmp_vec(rtol=1e-9):
     def cmp(impl, model):
         a, m = impl.split(), model.split()
@@ -225,11 +215,11 @@ def cases(rng, tier, seed):
             if method == 'filtered_fourier':
                 for c in chans:
                     out.append(Case('C18 fourier %s %s %s %s' % (f2x(fsr), f2x(cfg['lb']), tok_ub(cfg['ub']), flist(din[c])),
-                                    'ok ' + flist(dout[c]), clause, cmp=cmp_either, meta=dict(meta, ch=c)))
+                                    'ok ' + flist(dout[c]), clause, cmp=cmp_vec(), meta=dict(meta, ch=c)))
             elif method == 'filtered_boxcar':
                 for c in chans:
                     out.append(Case('C18 boxcar %s %s %s %s' % (f2x(fsr), f2x(cfg['lb']), tok_ub(cfg['ub']), flist(din[c])),
-                                    'ok ' + flist(dout[c]), clause, cmp=cmp_either, meta=dict(meta, ch=c)))
+                                    'ok ' + flist(dout[c]), clause, cmp=cmp_vec(), meta=dict(meta, ch=c)))
             elif method == 'fir':
                 out.append(Case('C18 firplan %s %s %s %d %d' % (f2x(fsr), f2x(cfg['lb']), tok_ub(cfg['ub']), cfg['order'], cfg['n']),
                                 observe_fir(cfg), 'fir/plan/' + cfg['kind'], cmp=cmp_plan, meta=meta))
@@ -273,7 +263,7 @@ def cases(rng, tier, seed):
                 return impl == model
             from fractions import Fraction
             got = parse_flist(impl.split()[1])
-            return any(close_vec(got, [float(Fraction(t)) for t in part.split(',')], rtol=1e-12) for part in model.split()[1:3])
+            return close_vec(got, [float(Fraction(t)) for t in model.split()[1].split(',')], rtol=1e-12)
         out.append(Case('C18 boxcarq %d %s %s' % (mub, 'none' if mlb is None else mlb, ','.join(str(v) for v in xs)), impl,
                         'boxcar/exact', cmp=cmp_q, meta={'kind': 'boxq', 'xs': xs, 'mub': mub, 'mlb': mlb}))
     return out
